@@ -131,4 +131,128 @@ def c09(prop, tier, replay):
                                             f"canon {ev.get('type')}: before {json.dumps(ev.get('before'))[:300]} after {json.dumps(ev.get('after'))[:400]}"))
 
 
-REGISTRY = {"C31": c31, "C32": c32, "C09": c09}
+def corpus_pars():
+    import glob
+    out = []
+    for pat in ("/repo/examples/**/*.par", "/repo/crates/parol/tests/data/**/*.par", "/repo/crates/parol-ls/data/**/*.par",
+                "/repo/crates/parol/src/parser/parol.par", "/repo/crates/parol-ls/parol_ls.par", "/repo/crates/parol/data/**/*.par"):
+        out += sorted(glob.glob(pat, recursive=True))
+    seen = set()
+    res = []
+    for f in out:
+        if f in seen or "-exp" in os.path.basename(f):
+            continue
+        seen.add(f)
+        res.append(f)
+    return res
+
+
+def tables_vectors(prop, tier, vec_path, corpus_limit=None):
+    """vectors for the table checks: grammar universe (LL and LR), scanner catalogue, repository corpus"""
+    from p_bnf import universe, with_
+    import p_scan
+    tot = {"generated": 0, "distinct": 0, "wall": 0.0}
+    spaces = []
+    n = 0
+    with open(vec_path, "w") as f:
+        part = vec_path + ".g"
+        g = tlc_gen("Gen_G", with_(universe(tier), Filter="wf"), ["Emit"], 16, part, spec="ESpec", run_prefix=f"{prop}_{tier}_g")
+        k = 0
+        for i, l in enumerate(open(part)):
+            v = json.loads(l)
+            # every grammar as LL; every 3rd also as LALR(1) (quick), all (thorough)
+            for lr in (False, True):
+                if lr and tier == "quick" and i % 3:
+                    continue
+                f.write(json.dumps({"g": v["g"], "lr": lr, "id": f"g{i}{'lr' if lr else 'll'}"}) + "\n")
+                k += 1
+        os.remove(part)
+        for kk in ("generated", "distinct", "wall"):
+            tot[kk] += g[kk]
+        spaces.append({"space": "Gen_G well-formed grammars", "vectors": k, "states": g["distinct"]})
+        n += k
+        k = 0
+        for cid in ("basic", "plus1", "plus2", "look", "modes", "stack", "skipsw", "cmt", "xml", "pas", "dash", "nonl", "nows", "allow", "allow2", "utf"):
+            part = vec_path + ".s"
+            g = tlc_gen("Scanner", {"CfgId": cid, "MaxText": 0}, ["Emit"], 1, part, spec="Spec", run_prefix=f"{prop}_{tier}_s{cid}", no_shard_consts=True)
+            for l in open(part):
+                v = json.loads(l)
+                if "def" in v:
+                    for lr in (False, True):
+                        f.write(json.dumps({"cfgdef": v["def"], "lr": lr, "id": f"scan-{cid}-{'lr' if lr else 'll'}"}) + "\n")
+                        k += 1
+            os.remove(part)
+            tot["distinct"] += g["distinct"]
+            tot["generated"] += g["generated"]
+        spaces.append({"space": "Scanner.tla catalogue", "vectors": k})
+        n += k
+        files = corpus_pars()
+        if corpus_limit:
+            files = files[:corpus_limit]
+        for fn in files:
+            try:
+                txt = open(fn).read()
+            except Exception:
+                continue
+            f.write(json.dumps({"par": txt, "id": fn}) + "\n")
+        spaces.append({"space": "repository .par files", "vectors": len(files)})
+        n += len(files)
+    return tot, spaces, n
+
+
+def tables_check(prop, tier, replay, rule, tv_module="Tables"):
+    t0 = time.time()
+    rep = Reporter(prop, tier)
+    vec_path = os.path.join(OUT, f"{prop}_{tier}.vec.ndjson")
+    if replay:
+        case = json.load(open(replay))["case"]
+        with open(vec_path, "w") as f:
+            f.write(json.dumps(case["vec"]) + "\n")
+        tot, spaces = {"generated": 0, "distinct": 0, "wall": 0.0}, []
+    else:
+        tot, spaces, n = tables_vectors(prop, tier, vec_path)
+    outp = os.path.join(OUT, f"{prop}_{tier}.replay.ndjson")
+    pv(["replay", "tables", vec_path, outp])
+    res = read_ndjson(outp)
+    summary = res[-1]["summary"]
+    for r in res[:-1]:
+        if "tool_error" in r:
+            raise ToolError(r["tool_error"])
+        m = r["mismatch"]
+        rep.violation({"vec": r["vec"], "what": m["what"]},
+                      f"{m['what']}: expected {json.dumps(m['expected'])[:200]} got {json.dumps(m['actual'])[:300]} on {json.dumps(r['vec'])[:300]}")
+    if summary["trace_events"] == 0:
+        raise ToolError("no tables events recorded (vacuous)")
+
+    def describe(first, ev, run_ev):
+        return {"vec": ev.get("vec") or {"id": ev.get("case")}, "why": ev.get("why")}, f"tables disagree: {json.dumps(ev)[:600]}"
+    tvres = tv.validate(prop, tv_module, outp + ".trace", rep, describe, nchunks=16, boundary="tables", run_prefix=f"{prop}_{tier}_tv")
+    samples = []
+    for i, l in enumerate(open(outp + ".trace")):
+        if i in (0, 40):
+            e = json.loads(l)
+            samples.append({"id": e["id"], "src": e["src"]})
+    rc = rep.finish()
+    cov = {"states": max(tot["distinct"] + tvres["states"], 1), "transitions": max(tot["generated"] + tvres["states"], 1),
+           "traces_validated_against_impl": tvres["cases_accepted"], "samples": samples,
+           "evaluations": summary["evaluations"], "distinct_nontrivial": summary["tags"].get("accepted", 0),
+           "rule": rule, "tags": summary["tags"], "spaces": spaces,
+           "tv": {k: tvres[k] for k in ("events", "cases", "cases_accepted", "states")},
+           "exhaustive": False, "known_findings_seen": rep.known, "tlc_wall_s": round(tot["wall"] + tvres["wall"], 1)}
+    write_evidence(prop, tier, "model_checking", cov, time.time() - t0, len(rep.violations),
+                   ["the three views are produced by the projections in harness/src/checks/tables.rs (source tables via syn, export model via serde, analysis via the public API)"])
+    return rc
+
+
+def c21(prop, tier, replay):
+    return tables_check(prop, tier, replay,
+                        "for every accepted grammar of three sources - the TLC-enumerated well-formed grammar universe as LL(k) and as LALR(1), the "
+                        "scanner configurations of Scanner.tla's catalogue (multiple states, lookahead, skip lists, comments) for both parser "
+                        "types, and every .par file of the repository (examples, test data, parol's own grammars) - one `tables` event carries "
+                        "three views of the parser: tables read back from the generated source, the export model, the analysis results; "
+                        "Tables.tla requires field-wise equality (names, start, productions, automata, LR actions/gotos, scanner tokens per "
+                        "state, transitions, skip lists, MAX_K) and every index in range (terminal/non-terminal/production/state indices, "
+                        "predicted productions belong to their non-terminal). non-trivial = grammar accepted")
+
+
+REGISTRY = {"C31": c31, "C32": c32, "C09": c09, "C21": c21}
